@@ -411,15 +411,6 @@ func c12One(c *core.C, ci *c12Image, ix *c12Index, w *c12Workload, f *c12Filter,
 	return p
 }
 
-func sortedKeys(m map[string]bool) []string {
-	var out []string
-	for k := range m {
-		out = append(out, k)
-	}
-	sort.Strings(out)
-	return out
-}
-
 // ---- filter generation ----------------------------------------------------------------------
 
 type c12Catalog struct {
